@@ -253,3 +253,66 @@ func FuzzC07(f *testing.F) {
 		}
 	})
 }
+
+// Siblings: an invalid text derived from a secret that was decoded successfully JUST BEFORE, in the same
+// process (a decoder that remembers earlier secrets must not let their malformed look-alikes through).
+type c07SibCase struct {
+	Key  []byte       `json:"key"`
+	Sp   gen.Spelling `json:"spelling"`
+	Kind int          `json:"kind"` // 0 '=' inserted in the middle, 1 '=' run inserted, 2 a foreign character inserted, 3 one character dropped to an impossible length, 4 padding moved to the front
+	Pos  int          `json:"pos"`
+}
+
+func checkC07Sib(c c07SibCase) verdict {
+	text := gen.Spell(c.Key, c.Sp)
+	if b, err := otp.DecodeSecret(text); err != nil || !bytes.Equal(b, c.Key) {
+		return bad(true, nil, "DecodeSecret(%q) = %x, %v; want %x", text, b, err, c.Key)
+	}
+	bare := strings.TrimRight(strings.TrimSpace(text), "=")
+	if len(bare) < 4 {
+		return ok(false, "too-short")
+	}
+	k := 1 + c.Pos%(len(bare)-2)
+	var badText string
+	switch c.Kind {
+	case 0:
+		badText = bare[:k] + "=" + bare[k:]
+	case 1:
+		badText = bare[:k] + "====" + bare[k:]
+	case 2:
+		badText = bare[:k] + "!" + bare[k:]
+	case 3:
+		badText = bare
+		for r := len(badText) % 8; !(r == 1 || r == 3 || r == 6); r = len(badText) % 8 {
+			badText = badText[:len(badText)-1]
+			if badText == "" {
+				return ok(false, "too-short")
+			}
+		}
+	default:
+		badText = "========"[:1+c.Pos%7] + bare
+	}
+	labels := []string{fmt.Sprintf("kind=%d", c.Kind)}
+	if b, err := otp.DecodeSecret(badText); err == nil {
+		return bad(true, labels, "after decoding %q, the malformed look-alike %q is accepted as %x", text, badText, b)
+	}
+	if code, err := otp.GenerateHOTP(badText, 1, nil); err == nil {
+		return bad(true, labels, "after decoding %q, GenerateHOTP(%q) produces %q", text, badText, code)
+	}
+	// and the valid spelling still decodes to the same key afterwards
+	if b, err := otp.DecodeSecret(text); err != nil || !bytes.Equal(b, c.Key) {
+		return bad(true, labels, "after the rejected look-alike, DecodeSecret(%q) = %x, %v; want %x", text, b, err, c.Key)
+	}
+	return ok(true, labels...)
+}
+
+var c07Sib = newPart("C07", "siblings",
+	"rapid: a secret (2..64 bytes, any spelling) is decoded successfully, then a malformed look-alike of the SAME text is presented ('=' or '====' inserted in the middle, a foreign character inserted, cut to an impossible length, padding in front): it must be rejected by DecodeSecret and GenerateHOTP, and the valid spelling must still decode to the same key afterwards; every case non-trivial",
+	checkC07Sib)
+
+func TestC07_Siblings(t *testing.T) {
+	c07Sib.rapid(t, ev.Pick(15_000, 300_000), func(t *rapid.T) c07SibCase {
+		n := rapid.IntRange(3, 64).Draw(t, "n")
+		return c07SibCase{Key: rapid.SliceOfN(rapid.Byte(), n, n).Draw(t, "key"), Sp: gen.DrawSpelling(t), Kind: rapid.IntRange(0, 4).Draw(t, "kind"), Pos: rapid.IntRange(0, 500).Draw(t, "pos")}
+	})
+}
